@@ -1,1 +1,16 @@
-pub fn hello() {}
+//! Conformance harness binding the TLA+ specification in /verif/spec to the real
+//! piecewise_polynomial crate (path dependency on /repo, built with
+//! --cfg piecewise_polynomial_verif).
+//!
+//! Two directions:
+//!  * spec -> impl  (`replay_*`): behaviours / vectors enumerated by TLC are run on the
+//!    real types and compared with what the specification says;
+//!  * impl -> spec  (`drive_*`): seeded drivers exercise the real code and log one ndjson
+//!    event per public call (arguments and results as bit patterns) for TLC to validate
+//!    against the trace specifications.
+
+pub mod arith;
+pub mod common;
+pub mod order;
+pub mod structs;
+pub mod dispatch;
